@@ -58,6 +58,10 @@ class RecorderActions(dict):
         if k.startswith("missing:"):
             return None
         log = self.log
+        if k.startswith("async:"):
+            async def af(i, c, e, a, _k=k):
+                log.append(f"{_k}@{canon_ev(e.type)}")
+            return af
 
         def f(i, c, e, a, _k=k):
             log.append(f"{_k}@{canon_ev(e.type)}")
@@ -94,6 +98,36 @@ def make_guard(name, val):
     return g
 
 
+class RecorderGuards(dict):
+    """guards registry: valuation table + context predicates `lt:k:n`, `ge:k:n`, `eq:k:n`"""
+
+    def __init__(self, gv):
+        super().__init__({k: make_guard(k, v) for k, v in gv.items()})
+
+    def _ctxguard(self, k):
+        parts = k.split(":")
+        if len(parts) == 3 and parts[0] in ("lt", "ge", "eq"):
+            try:
+                n = int(parts[2])
+            except ValueError:
+                return None
+            key, op = parts[1], parts[0]
+
+            def g(ctx, ev):
+                v = int(ctx.get(key, 0)) if isinstance(ctx, dict) else 0
+                return v < n if op == "lt" else (v >= n if op == "ge" else v == n)
+            return g
+        return None
+
+    def get(self, k, d=None):
+        if dict.__contains__(self, k):
+            return dict.get(self, k)
+        return self._ctxguard(k) or d
+
+    def __contains__(self, k):
+        return dict.__contains__(self, k) or self._ctxguard(k) is not None
+
+
 class RecorderPlugin(PluginBase):
     def __init__(self, log):
         self.log = log
@@ -112,7 +146,8 @@ class RecorderPlugin(PluginBase):
 
 
 def mklogic(log, gv):
-    lg = MachineLogic(guards={k: make_guard(k, v) for k, v in gv.items()})
+    lg = MachineLogic()
+    lg.guards = RecorderGuards(gv)
     lg.actions = RecorderActions(log)
     return lg
 
@@ -259,24 +294,26 @@ def run_guarded(flavor, case, timeout=10):
     """run one case under a SIGALRM watchdog; returns ('ok', obs) | ('hang', None) | ('crash', repr)"""
     old = signal.signal(signal.SIGALRM, _alarm)
     _HUNG[0] = False
-    signal.alarm(timeout)
+    # repeating timer: an exception raised inside a weakref/GC callback is swallowed by CPython,
+    # so keep firing until the run really unwinds
+    signal.setitimer(signal.ITIMER_REAL, timeout, 0.2)
     try:
         r = RUNNERS[flavor](case)
-        signal.alarm(0)
+        signal.setitimer(signal.ITIMER_REAL, 0)
         if _HUNG[0]:
             return ("hang", None)
         return ("ok", r)
     except Hang:
-        signal.alarm(0)
+        signal.setitimer(signal.ITIMER_REAL, 0)
         return ("hang", None)
     except RecursionError as x:
-        signal.alarm(0)
+        signal.setitimer(signal.ITIMER_REAL, 0)
         return ("crash", "RecursionError")
     except Exception as x:  # a raw (non-library) exception escaping the public API
-        signal.alarm(0)
+        signal.setitimer(signal.ITIMER_REAL, 0)
         if _HUNG[0]:
             return ("hang", None)
         return ("crash", f"RAW:{type(x).__name__}: {x}"[:300])
     finally:
-        signal.alarm(0)
+        signal.setitimer(signal.ITIMER_REAL, 0)
         signal.signal(signal.SIGALRM, old)
